@@ -29,7 +29,7 @@ func init() {
 	mc.Register(&mc.Property{
 		ID:    "C09",
 		Level: "exploration",
-		Rule: "E1 bounded-exhaustive enumeration: sources (s,from,to) = every string of length ≤3 over a small byte alphabet, also behind stems of 7/8/9 (thorough: 15/16/17) bytes in 4 variants (first byte 's' / 0x00 / 0xff, eighth byte 0x80), × every 0 ≤ from ≤ to ≤ 8·len, plus EVERY stem length 0..40 with the last 10 bit positions as ends (stemmed: from in {0,8}, to around the stem end and in the tail); per source Len(New(..)) and Cmp with the canonical encoding of the same bit string must be 0; Cmp on ALL ordered pairs of canonical encodings (one per distinct bit string); " +
+		Rule: "E1 bounded-exhaustive enumeration: sources (s,from,to) = every string of length ≤3 over a small byte alphabet, every byte value as a one-byte string, also behind stems of 7/8/9 (thorough: 15/16/17) bytes in 4 variants (first byte 's' / 0x00 / 0xff, eighth byte 0x80), × every 0 ≤ from ≤ to ≤ 8·len, plus EVERY stem length 0..40 with the last 10 bit positions as ends (stemmed: from in {0,8}, to around the stem end and in the tail); per source Len(New(..)) and Cmp with the canonical encoding of the same bit string must be 0; Cmp on ALL ordered pairs of canonical encodings (one per distinct bit string); " +
 			"CmpUpto and StrCmpUpto (from a fixed alphabet of call frames, after poisoning the dead stack with 0x00 and 0xff) on plain strings × all canonical encodings. Oracle: Go string comparison of '0'/'1' renderings (lexicographic, proper prefix first). A case is one call; non-trivial when both bit strings are non-empty.",
 		Assumptions: []string{
 			"byte values outside the alphabet and longer strings are not enumerated; lengths straddle the 8-byte fast-path switch through the stems",
@@ -145,6 +145,17 @@ func c09Sources(c *mc.Ctx) []c09Src {
 		}
 	}
 	short := gen.Strings(alpha, 2)
+	// every byte value as a one-byte string (aligned end and an unaligned one)
+	inAlpha := map[byte]bool{}
+	for _, b := range alpha {
+		inAlpha[b] = true
+	}
+	for b := 0; b < 256; b++ {
+		if !inAlpha[byte(b)] {
+			x := gen.Bytes([]byte{byte(b)})
+			out = append(out, c09Src{x, 0, 8}, c09Src{x, 0, 5})
+		}
+	}
 	seen := map[string]bool{}
 	// every stem length 0..40 with two tails and the last 10 bit positions as ends
 	for st := 0; st <= 40; st++ {
